@@ -23,13 +23,17 @@ CONSTANTS
   RootOps,     \* op budget of a root activity
   TaskOps,     \* op budget of a spawned task
   Horizon,     \* largest date
-  NFlags, NLocks,
+  NFlags, NLocks, NQueues, NChans,
   Menu         \* set of client operations enabled in this configuration
 
 Acts   == 1..MaxActs
 Scopes == 1..MaxScopes
 Flags  == 1..NFlags
 Locks  == 1..NLocks
+Queues == 1..NQueues
+Chans  == 1..NChans
+AllLocks == 1..(NLocks + NQueues)   \* lock NLocks+q is the read mutex of queue q
+Mutex(q) == NLocks + q
 Times  == 1..Horizon
 Classes == {"Key", "Index", "Assert"}        \* classes of client exceptions
 Priv(c) == c = "Assert"                      \* Scope.PROMOTE_CONCURRENT
@@ -45,11 +49,12 @@ VARIABLES
   subs,     \* Seq of [n, w, sig]: subscriptions to notifications, oldest first
   flag,     \* flag -> BOOLEAN
   lock,     \* lock -> [owner, depth]
-  cnt,      \* [act, sc, exc] allocation counters
+  obj,      \* state of streams: [q: queue -> [buf, closed], ch: channel -> [closed, bufs]]
+  cnt,      \* [act, sc, exc, item, cons] allocation counters
   fault,    \* "" or the name of an internal failure of the kernel
   ev        \* events emitted by the last step
 
-vars == <<now, pending, future, act, run, task, sc, subs, flag, lock, cnt, fault, ev>>
+vars == <<now, pending, future, act, run, task, sc, subs, flag, lock, obj, cnt, fault, ev>>
 
 ----------------------------------------------------------------------------
 \* values
@@ -65,11 +70,13 @@ Conc(xs)  == <<"conc", xs>>        \* Concurrent(*xs)
 TCan(k)   == <<"tcancelled", k>>   \* TaskCancelled(k)
 TClo(k)   == <<"tclosed", k>>      \* TaskClosed / VolatileTaskClosed
 SClosed(s) == <<"scopeclosed", s>> \* ScopeClosed
+StreamClosed(k, i) == <<"streamclosed", k, i>>   \* StreamClosed of queue ("q") / channel ("ch") i
+StopIter == <<"stopiter">>        \* StopAsyncIteration: an `async for` over a stream ends
 
 IsInterrupt(x) == x # NoSig /\ x[1] \in {"wk", "cs", "ci", "ct"}
 IsGenExit(x)   == x = GenExit
 \* subclasses of Exception (what a client `except Exception` catches)
-IsException(x) == x # NoSig /\ x[1] \in {"exc", "conc", "tcancelled", "tclosed", "scopeclosed"}
+IsException(x) == x # NoSig /\ x[1] \in {"exc", "conc", "tcancelled", "tclosed", "scopeclosed", "streamclosed", "stopiter"}
 
 Actv(t, s) == [tgt |-> t, sig |-> s]
 Purge(q, s) == SelectSeq(q, LAMBDA y : y.sig # s)
@@ -98,6 +105,8 @@ NNFlag(f) == <<"nflag", f>>
 NDone(k)  == <<"done", k>>
 NLock(l)  == <<"lock", l>>
 NBody(s)  == <<"body", s>>        \* Scope._body_done
+NQ(q)     == <<"q", q>>           \* Queue._notification
+NCh(c)    == <<"ch", c>>          \* Channel._notification
 
 \* current truth value of a condition-notification
 Holds(n) ==
@@ -119,7 +128,8 @@ Init ==
   /\ pending = [i \in 1..NRoots |-> Actv(i, NoSig)]
   /\ future = [t \in Times |-> <<>>]
   /\ act = [a \in Acts |-> [life |-> IF a <= NRoots THEN "new" ELSE "unborn", stack |-> <<>>,
-                            ops |-> IF a <= NRoots THEN RootOps ELSE TaskOps, cur |-> NoCur]]
+                            ops |-> IF a <= NRoots THEN RootOps ELSE TaskOps, cur |-> NoCur,
+                            iters |-> [c \in Chans |-> 0]]]
   /\ run = <<>>
   /\ task = [a \in Acts |-> [scope |-> 0, vol |-> FALSE, res |-> NoSig, done |-> FALSE, ncan |-> 0, delay |-> 0, fin |-> "none"]]
   /\ sc = [s \in Scopes |-> [owner |-> 0, kind |-> "none", open |-> FALSE, inter |-> FALSE,
@@ -127,8 +137,10 @@ Init ==
                              notif |-> NoSig, bodydone |-> FALSE]]
   /\ subs = <<>>
   /\ flag = [f \in Flags |-> FALSE]
-  /\ lock = [l \in Locks |-> [owner |-> 0, depth |-> 0]]
-  /\ cnt = [act |-> NRoots, sc |-> 0, exc |-> 0]
+  /\ lock = [l \in AllLocks |-> [owner |-> 0, depth |-> 0]]
+  /\ obj = [q |-> [i \in Queues |-> [buf |-> <<>>, closed |-> FALSE]],
+            ch |-> [i \in Chans |-> [closed |-> FALSE, bufs |-> <<>>]]]
+  /\ cnt = [act |-> NRoots, sc |-> 0, exc |-> 0, item |-> 0, cons |-> 0]
   /\ fault = ""
   /\ ev = <<>>
 
@@ -253,8 +265,10 @@ TaskAwaited ==
 OpDone ==
   /\ Running /\ Mode = "ret" /\ User(A) /\ act[A].cur.op # "none"
   /\ act' = [act EXCEPT ![A].cur = NoCur]
-  /\ ev' = E([e |-> "r", a |-> A, t |-> now] @@ act[A].cur)
-  /\ UNCHANGED <<now, pending, future, run, task, sc, subs, flag, lock, cnt, fault>>
+  /\ ev' = E(IF X = NoSig THEN [e |-> "r", a |-> A, t |-> now] @@ act[A].cur
+                           ELSE [e |-> "r", a |-> A, t |-> now, v |-> X[2]] @@ act[A].cur)
+  /\ SetRun("ret", NoSig)
+  /\ UNCHANGED <<now, pending, future, task, sc, subs, flag, lock, cnt, fault>>
 
 OpRaised ==
   /\ Running /\ Mode = "exc" /\ User(A) /\ act[A].cur.op # "none"
@@ -282,7 +296,7 @@ LockEntered ==
   /\ Running /\ Top(A).k = "lenter"
   /\ LET l == Top(A).l IN
      IF Mode = "ret"
-     THEN /\ act' = SetTop(act, A, [k |-> "held", l |-> l])
+     THEN /\ act' = SetTop(act, A, IF l \in Locks THEN [k |-> "held", l |-> l] ELSE [k |-> "mheld", l |-> l, ph |-> "fresh"])
           /\ lock' = [lock EXCEPT ![l].depth = @ + 1]
           /\ UNCHANGED <<subs, pending>>
      ELSE \* except BaseException: pass the lock on if we are the designated owner
@@ -674,14 +688,191 @@ UserOp ==
               /\ UNCHANGED <<pending, future, task, sc, subs, flag, lock, fault>>
 
 ----------------------------------------------------------------------------
+\* STREAMS (usim/_basics/streams.py): Queue and Channel
+\* A queue receive is  `async with self._read_mutex:` around the wait; frames:
+\*    qget(q)  >  [lenter(m) > sub]  |  mheld(m, ph) > [postpone | sub]
+SetQ(q, f, v) == [obj EXCEPT !.q[q][f] = v]
+AwakeNext(sb, pd, n) ==
+  LET ws == WaitersOf(sb, n) IN
+  IF ws = <<>> THEN <<sb, pd>>
+  ELSE <<SelectSeq(sb, LAMBDA y : y # ws[1]), Append(pd, Actv(ws[1].w, ws[1].sig))>>
+
+\* body of Queue._await_message once the read mutex is held (ph = "fresh"),
+\* after the postponement (ph = "post") and after the notification (ph = "wait")
+QGetStep ==
+  /\ Running /\ Top(A).k \in {"mheld", "qget"}
+  /\ IF Top(A).k = "qget"
+     THEN \* the mutex block has been left: return the item / propagate the exception
+          /\ act' = Drop(act, A)
+          /\ UNCHANGED <<run, lock, subs, pending, obj, fault>>
+     ELSE LET fr == Top(A) m == fr.l q == m - NLocks IN
+          IF Mode = "exc"
+          THEN \* Lock.__aexit__ on the way out
+               /\ act' = Drop(act, A) /\ ExitLock(m) /\ UNCHANGED <<run, obj, fault>>
+          ELSE IF fr.ph = "fresh"
+          THEN IF obj.q[q].buf # <<>>
+               THEN /\ DoPostpone(SetTop(act, A, [fr EXCEPT !.ph = "post"]), pending)
+                    /\ UNCHANGED <<lock, subs, obj, fault>>
+               ELSE IF obj.q[q].closed
+               THEN /\ SetRun("exc", StreamClosed("q", q)) /\ UNCHANGED <<act, lock, subs, pending, obj, fault>>
+               ELSE /\ DoSubscribe(SetTop(act, A, [fr EXCEPT !.ph = "wait"]), subs, NQ(q))
+                    /\ UNCHANGED <<lock, pending, obj, fault>>
+          ELSE IF obj.q[q].buf # <<>>
+          THEN \* popleft, leave the mutex, return the item
+               /\ obj' = SetQ(q, "buf", Tail(obj.q[q].buf))
+               /\ act' = Drop(act, A)
+               /\ ExitLock(m)
+               /\ SetRun("ret", <<"val", Head(obj.q[q].buf)>>)
+               /\ fault' = fault
+          ELSE /\ SetRun("exc", StreamClosed("q", q))
+               /\ fault' = IF obj.q[q].closed THEN fault ELSE "queue_wake_without_item"
+               /\ UNCHANGED <<act, lock, subs, pending, obj>>
+  /\ ev' = <<>>
+  /\ UNCHANGED <<now, future, task, sc, flag, cnt>>
+
+\* Channel: consumer buffers are registered in `bufs` (registration order)
+BufOf(c, cid) == LET i == CHOOSE j \in 1..Len(obj.ch[c].bufs) : obj.ch[c].bufs[j].cid = cid IN obj.ch[c].bufs[i]
+DelBuf(o, c, cid) == [o EXCEPT !.ch[c].bufs = SelectSeq(@, LAMBDA b : b.cid # cid)]
+SetBuf(o, c, cid, items) == [o EXCEPT !.ch[c].bufs = [j \in 1..Len(@) |-> IF @[j].cid = cid THEN [cid |-> cid, items |-> items] ELSE @[j]]]
+
+\* frames  cget(c, cid) > sub      (await channel)
+\*         cnext(c, cid) > sub     (one step of `async for` over the channel; the iterator lives in act[a].iters)
+ChanStep ==
+  /\ Running /\ Top(A).k \in {"cget", "cnext"}
+  /\ LET fr == Top(A) c == fr.c cid == fr.cid IN
+     IF fr.k = "cget"
+     THEN \* finally: del self._consumer_buffers[sentinel]
+          /\ obj' = DelBuf(obj, c, cid)
+          /\ act' = Drop(act, A)
+          /\ IF Mode = "exc" THEN UNCHANGED <<run, fault>>
+             ELSE IF BufOf(c, cid).items # <<>> THEN SetRun("ret", <<"val", BufOf(c, cid).items[1]>>) /\ fault' = fault
+             ELSE /\ SetRun("exc", StreamClosed("ch", c))
+                  /\ fault' = IF obj.ch[c].closed THEN fault ELSE "channel_wake_without_item"
+          /\ UNCHANGED <<subs, pending>>
+     ELSE IF Mode = "exc"
+     THEN \* the generator is finalised: finally: del buffer
+          /\ obj' = DelBuf(obj, c, cid)
+          /\ act' = [Drop(act, A) EXCEPT ![A].iters = [@ EXCEPT ![c] = 0]]
+          /\ UNCHANGED <<run, fault, subs, pending>>
+     ELSE IF BufOf(c, cid).items # <<>>
+     THEN /\ obj' = SetBuf(obj, c, cid, Tail(BufOf(c, cid).items))
+          /\ act' = Drop(act, A)
+          /\ SetRun("ret", <<"val", Head(BufOf(c, cid).items)>>)
+          /\ UNCHANGED <<fault, subs, pending>>
+     ELSE IF obj.ch[c].closed
+     THEN \* break: the generator ends, finally: del buffer
+          /\ obj' = DelBuf(obj, c, cid)
+          /\ act' = [Drop(act, A) EXCEPT ![A].iters = [@ EXCEPT ![c] = 0]]
+          /\ SetRun("exc", StopIter)
+          /\ UNCHANGED <<fault, subs, pending>>
+     ELSE /\ DoSubscribe(act, subs, NCh(c)) /\ UNCHANGED <<obj, fault, pending>>
+  /\ ev' = <<>>
+  /\ UNCHANGED <<now, future, task, sc, flag, lock, cnt>>
+
+StreamOp ==
+  /\ Running /\ Mode = "ret" /\ User(A) /\ act[A].cur.op = "none" /\ act[A].ops > 0
+  /\ LET ac == Spend(act) IN
+     \/ /\ In("put")
+        /\ \E q \in Queues :
+             IF obj.q[q].closed
+             THEN /\ act' = Busy(ac, "put") /\ SetRun("exc", StreamClosed("q", q))
+                  /\ ev' = E(B([op |-> "put", q |-> q, v |-> 0]))
+                  /\ UNCHANGED <<pending, subs, obj, cnt>>
+             ELSE LET v == cnt.item + 1
+                      aw == AwakeNext(subs, pending, NQ(q)) IN
+                  /\ cnt' = [cnt EXCEPT !.item = v]
+                  /\ obj' = SetQ(q, "buf", Append(obj.q[q].buf, v))
+                  /\ subs' = aw[1]
+                  /\ DoPostpone(Busy(ac, "put"), aw[2])
+                  /\ ev' = E(B([op |-> "put", q |-> q, v |-> v]))
+        /\ UNCHANGED <<lock>>
+     \/ /\ In("qclose")
+        /\ \E q \in Queues :
+             LET aw == IF obj.q[q].closed THEN <<subs, pending>> ELSE AwakeAll(subs, pending, NQ(q)) IN
+             /\ obj' = SetQ(q, "closed", TRUE)
+             /\ subs' = aw[1]
+             /\ DoPostpone(Busy(ac, "qclose"), aw[2])
+             /\ ev' = E(B([op |-> "qclose", q |-> q]))
+        /\ UNCHANGED <<lock, cnt>>
+     \/ /\ In("get")
+        /\ \E q \in Queues :
+             LET m == Mutex(q)
+                 ac1 == Push([ac EXCEPT ![A].cur = [op |-> "get", q |-> q]], A, [k |-> "qget", q |-> q]) IN
+             /\ ev' = E(B([op |-> "get", q |-> q]))
+             /\ IF lock[m].owner = 0 \/ lock[m].owner = A
+                THEN /\ lock' = [lock EXCEPT ![m].owner = A, ![m].depth = @ + 1]
+                     /\ act' = Push(ac1, A, [k |-> "mheld", l |-> m, ph |-> "fresh"])
+                     /\ UNCHANGED <<run, subs>>
+                ELSE /\ DoSubscribe(Push(ac1, A, [k |-> "lenter", l |-> m]), subs, NLock(m))
+                     /\ lock' = lock
+        /\ UNCHANGED <<pending, obj, cnt>>
+     \/ /\ In("cput")
+        /\ \E c \in Chans :
+             IF obj.ch[c].closed
+             THEN /\ act' = Busy(ac, "cput") /\ SetRun("exc", StreamClosed("ch", c))
+                  /\ ev' = E(B([op |-> "cput", c |-> c, v |-> 0]))
+                  /\ UNCHANGED <<pending, subs, obj, cnt>>
+             ELSE LET v == cnt.item + 1
+                      aw == AwakeAll(subs, pending, NCh(c)) IN
+                  /\ cnt' = [cnt EXCEPT !.item = v]
+                  /\ obj' = [obj EXCEPT !.ch[c].bufs = [j \in 1..Len(@) |-> [@[j] EXCEPT !.items = Append(@, v)]]]
+                  /\ subs' = aw[1]
+                  /\ DoPostpone(Busy(ac, "cput"), aw[2])
+                  /\ ev' = E(B([op |-> "cput", c |-> c, v |-> v]))
+        /\ UNCHANGED <<lock>>
+     \/ /\ In("cclose")
+        /\ \E c \in Chans :
+             LET aw == IF obj.ch[c].closed THEN <<subs, pending>> ELSE AwakeAll(subs, pending, NCh(c)) IN
+             /\ obj' = [obj EXCEPT !.ch[c].closed = TRUE]
+             /\ subs' = aw[1]
+             /\ DoPostpone(Busy(ac, "cclose"), aw[2])
+             /\ ev' = E(B([op |-> "cclose", c |-> c]))
+        /\ UNCHANGED <<lock, cnt>>
+     \/ /\ In("cget")
+        /\ \E c \in Chans :
+             /\ ev' = E(B([op |-> "cget", c |-> c]))
+             /\ IF obj.ch[c].closed
+                THEN /\ act' = [ac EXCEPT ![A].cur = [op |-> "cget", c |-> c]] /\ SetRun("exc", StreamClosed("ch", c))
+                     /\ UNCHANGED <<subs, obj, cnt>>
+                ELSE LET cid == cnt.cons + 1 IN
+                     /\ cnt' = [cnt EXCEPT !.cons = cid]
+                     /\ obj' = [obj EXCEPT !.ch[c].bufs = Append(@, [cid |-> cid, items |-> <<>>])]
+                     /\ DoSubscribe(Push([ac EXCEPT ![A].cur = [op |-> "cget", c |-> c]], A,
+                                         [k |-> "cget", c |-> c, cid |-> cid]), subs, NCh(c))
+        /\ UNCHANGED <<pending, lock>>
+     \/ /\ In("cnext")
+        /\ \E c \in Chans :
+             \* one step of `async for` over the channel; the first step subscribes
+             LET first == act[A].iters[c] = 0
+                 cid == IF first THEN cnt.cons + 1 ELSE act[A].iters[c]
+                 ac1 == [ac EXCEPT ![A].cur = [op |-> "cnext", c |-> c], ![A].iters = [@ EXCEPT ![c] = cid]] IN
+             /\ ev' = E(B([op |-> "cnext", c |-> c]))
+             /\ cnt' = IF first THEN [cnt EXCEPT !.cons = cid] ELSE cnt
+             /\ obj' = IF first THEN [obj EXCEPT !.ch[c].bufs = Append(@, [cid |-> cid, items |-> <<>>])] ELSE obj
+             /\ act' = Push(ac1, A, [k |-> "cnext", c |-> c, cid |-> cid])
+             /\ UNCHANGED <<run, subs>>
+        /\ UNCHANGED <<pending, lock>>
+     \/ /\ In("cstop")
+        /\ \E c \in Chans :
+             \* the consumer drops its iterator (break): the generator is finalised
+             /\ act[A].iters[c] # 0
+             /\ obj' = DelBuf(obj, c, act[A].iters[c])
+             /\ act' = [ac EXCEPT ![A].iters = [@ EXCEPT ![c] = 0]]
+             /\ ev' = E([e |-> "p", a |-> A, t |-> now, op |-> "cstop", c |-> c])
+        /\ UNCHANGED <<pending, run, subs, lock, cnt>>
+  /\ UNCHANGED <<now, future, task, sc, flag, fault>>
+
+----------------------------------------------------------------------------
+Keep(Act) == Act /\ UNCHANGED obj        \* the steps above do not touch stream state
 Next ==
-  \/ Deliver \/ Advance
-  \/ WakeOwn \/ UnwindWait \/ CondLoop \/ TaskAwaited
-  \/ OpDone \/ OpRaised
-  \/ LockEntered \/ HeldExc
-  \/ RunnerStart \/ RunnerDelayed \/ RunnerEnd \/ UserExc
-  \/ Graceful \/ Abort \/ CloseNext \/ Propagate
-  \/ UserOp
+  \/ Keep(Deliver) \/ Keep(Advance)
+  \/ Keep(WakeOwn) \/ Keep(UnwindWait) \/ Keep(CondLoop) \/ Keep(TaskAwaited)
+  \/ Keep(OpDone) \/ Keep(OpRaised)
+  \/ Keep(LockEntered) \/ Keep(HeldExc)
+  \/ Keep(RunnerStart) \/ Keep(RunnerDelayed) \/ Keep(RunnerEnd) \/ Keep(UserExc)
+  \/ Keep(Graceful) \/ Keep(Abort) \/ Keep(CloseNext) \/ Keep(Propagate)
+  \/ Keep(UserOp)
+  \/ StreamOp \/ QGetStep \/ ChanStep
 
 Spec == Init /\ [][Next]_vars
 =============================================================================
